@@ -1,7 +1,8 @@
-import patchmode
+import patchmode, rootmode
 
 
 def main(tier, seed, replay):
     return patchmode.run("C07", tier, seed, replay,
                          base=dict(mode="c07", prop="Props.C07",
-                                   corr="corr:exclusion (model writer bytes / reader outcome with PathSpec exclusion vs the implementation)"))
+                                   corr="corr:exclusion (model writer bytes / reader outcome with PathSpec exclusion vs the implementation)"),
+                         post=rootmode.post("c07"))
